@@ -5,6 +5,7 @@
  "enforce": ["parsenum_signed"],
  "replace": [],
  "loop_contracts": false,
+ "backend": "kissat",
  "annotate": ["util/parsenum.h"],
  "defines": ["VERIF_HALLOC", "NUM_MAXLEN=12", "VERIF_STRMAX=14"],
  "thorough_defines": ["NUM_MAXLEN=70", "VERIF_STRMAX=72"],
